@@ -306,6 +306,17 @@ void put_solution (mpq_QSdata * p)
 	mpq_EGlpNumFreeArray (pi); mpq_EGlpNumFreeArray (sl);
 }
 
+void qsx_dump_all (mpq_QSdata * p)
+{
+	QSbasis *B;
+	dump_api (p);
+	put_state (p);
+	put_cache (p);
+	B = p->basis ? mpq_QSget_basis (p) : 0;
+	put_basis ("basis", B);
+	if (B) mpq_QSfree_basis (B);
+}
+
 /* ------------------------------------------------------------------ H1 trace of QSexact_solver */
 #ifdef QSOPT_EX_VERIF
 extern void (*QSexact_verif_hook) (const char *what, int a, int b, mpq_t * v1, int n1, mpq_t * v2, int n2, QSbasis * B);
@@ -436,8 +447,10 @@ int main (int argc, char **argv)
 		tokenize (line);
 		if (!NTOK) continue;
 		c = tok ();
-		if (!strcmp (c, "fork"))
+		int probe = 0;
+		if (!strcmp (c, "fork") || !strcmp (c, "probe"))
 		{
+			probe = !strcmp (c, "probe");
 			/* run the command in a child so that a crash is a result, not the end of the run */
 			fflush (stdout);
 			pid = fork ();
@@ -464,6 +477,7 @@ int main (int argc, char **argv)
 		else if (!strcmp (c, "dumpilp")) dump_ilp (slot ());
 		else if (!strcmp (c, "state")) { mpq_QSdata *p = slot (); put_state (p); put_cache (p); }
 		else if (!strcmp (c, "sol")) put_solution (slot ());
+		else if (!strcmp (c, "dumpall")) qsx_dump_all (slot ());
 		else if (!strcmp (c, "getbasis"))
 		{
 			QSbasis *B = mpq_QSget_basis (slot ());
@@ -471,6 +485,12 @@ int main (int argc, char **argv)
 			if (B) mpq_QSfree_basis (B);
 		}
 		else if (!qsx_more_commands (c)) printf ("bad-op %s\n", c);
+		if (forked && probe && NTOK >= 3)
+		{
+			/* probe: show everything observable of the slot the command acted on, then vanish */
+			int k = atoi (TOK[2]);
+			if (k >= 0 && k < NSLOT && SLOT[k]) qsx_dump_all (SLOT[k]);
+		}
 		if (forked) { fflush (stdout); _exit (0); }
 		printf (".\n");
 		fflush (stdout);
